@@ -3,7 +3,7 @@
     Go type by reflection) and a value; the model encodes, decodes its own
     cell, and encodes the decoded value again. *)
 From Coq Require Import List NArith ZArith String Bool.
-From Tongo Require Import Lib.Bits Lib.Res Lib.Sx Model.TlbCore Model.VmStack Model.TlbExt.
+From Tongo Require Import Lib.Bits Lib.Res Lib.Sx Model.TlbCore Model.VmStack Model.TlbExt Model.TlbTags.
 Import ListNotations.
 Local Open Scope string_scope.
 Local Open Scope list_scope.
@@ -213,7 +213,19 @@ Definition run_rt_base (a : sx) : sx :=
 
 (** c03.dec  (name descriptor cell): decode a given cell (real chain data, or
     a cell the implementation produced) and encode the result again *)
-Definition run_dec (a : sx) : sx :=
+(* the two tag parsers on an arbitrary string:  ('tag x<string>) -> (ParseTag-answer parseTag-answer) *)
+Definition string_of_bytes (l : list N) : string :=
+  fold_right (fun n acc => String (Ascii.ascii_of_N n) acc) EmptyString l.
+
+Definition run_tag (l : list N) : sx :=
+  let s := string_of_bytes l in
+  SL [match parse_tag s with Some (len, v) => SL [sx_nat len; SN v] | None => SA "err" end;
+      match parse_field_tag s with
+      | Some t => SL [SB (ft_ref t); SB (ft_maybe t); SB (ft_maybe_ref t)]
+      | None => SA "err"
+      end].
+
+Definition run_dec_cell (a : sx) : sx :=
   match a with
   | SL [_; d; c] =>
       match ty_of d, cell_of c with
@@ -356,6 +368,13 @@ Definition run_stack (a : sx) : sx :=
       | _, None => sx_err "value"
       end
   | _ => sx_err "c03.stack"
+  end.
+
+(* c03.dec serves the decode-side cases: a cell to decode, or a tag string to parse *)
+Definition run_dec (a : sx) : sx :=
+  match a with
+  | SL [SA nm; SBytes l] => if String.eqb nm "tag" then run_tag l else sx_err "c03.dec"
+  | _ => run_dec_cell a
   end.
 
 (** private dispatcher (the integrated build uses Harness/Dispatch.v) *)
